@@ -393,7 +393,7 @@ func c14Token(c *Ctx) {
 // ---------------- C20 ----------------
 
 func runC20(c *Ctx) {
-	c.Clause("C20.1 congestionWindow: who may write; on the ACK path every store is an increase or min(max, ·), under isCwndLimited and below the maximum; not in recovery")
+	c.Clause("C20.1 congestionWindow: who may write; on the ACK path every store is an increase or max(window, min(max, ·)), under isCwndLimited and below the maximum; not in recovery")
 	c.Clause("C20.2 OnCongestionEvent: one reduction per window of packets (largestSentAtLastCutback guard and update), clamp to the two-packet minimum")
 	c.Clause("C20.3 CanSend = bytesInFlight < window; SendAny/SendPacingLimited only beyond CanSend")
 	c.Clause("C20.4 pacer: overflow guards dominate the multiplication; Budget capped by maxBurstSize; 5/4 bandwidth factor")
@@ -425,8 +425,11 @@ func c20Growth(c *Ctx) {
 	maxCW := c.obj(cong, "cubicSender", "maxCongestionWindow")
 	limited := c.obj(cong, "cubicSender", "isCwndLimited")
 	for _, w := range ws[funcObj(mi)] {
-		okv := BinV(token.ADD, Load(cw), Load(mds))(w.Val) || MinMaxOf("min", CallTo(maxCW, -1), Any())(w.Val)
-		c.Check(okv, R, "shape:ack-path store is cw+maxDatagramSize or min(max,·)", c.P.InstrPos(w.Instr), "acknowledgements never shrink the window and never push it beyond the maximum by more than one packet")
+		// cw + maxDatagramSize, or max(cw, min(maximum, cubic estimate)): never below the old value. A bare
+		// min(maximum, estimate) is not enough: the cubic estimate can be lower than the window (a smaller MinRTT sample
+		// moves the evaluation point of the curve back; the cube overflows int64 after ~25 s) — findings/audit/C20-2, C20-3
+		okv := BinV(token.ADD, Load(cw), Load(mds))(w.Val) || MinMaxOf("max", Load(cw), MinMaxOf("min", CallTo(maxCW, -1), Any()))(w.Val)
+		c.Check(okv, R, "shape:ack-path store is cw+maxDatagramSize or max(cw, min(max,·))", c.P.InstrPos(w.Instr), "acknowledgements never shrink the window and never push it beyond the maximum by more than one packet")
 		site := w.Instr
 		c.cut(R, "guard:growth only when cwnd-limited", &Cut{Fn: mi, Target: func(i ssa.Instruction) bool { return i == site },
 			Edge: EdgeRel(BoolTrue(CallTo(limited, -1, ParamV("priorInFlight"))), false)}, "the window grows only while the sender is window-limited")
